@@ -378,7 +378,7 @@ def setup_oracle(ctx, n, tdir, model_lines, model_expect):
             # a fresh profile, or (40 %) a second / third setup run on the profile of the previous iteration
             prev = {}
             if profile.PROFILE_PATH.exists():
-                if i == 2 or (i and i != 1 and rng.random() < 0.4):
+                if i in (2, 4) or (i and i not in (1, 3) and rng.random() < 0.4):
                     prev = json.loads(profile.PROFILE_PATH.read_text())
                 else:
                     profile.PROFILE_PATH.unlink()
@@ -445,6 +445,12 @@ def setup_oracle(ctx, n, tdir, model_lines, model_expect):
                 left, right = -2.0, 1.0          # directed pair: a non-zero interval ...
             elif i == 2:
                 left, right = 0.0, 0.0           # ... then the answer 0 on the existing profile
+            elif i == 3:
+                left, right = -1.2345678, 0.43217     # bounds that are not on a nanometre grid ...
+            elif i == 4:
+                left, right = None, None              # ... must survive a run in which both prompts are skipped
+            elif rng.random() < 0.2:
+                left = rng.choice([-1.2345678, -0.7000004])
             ans.append("" if left is None else repr(left))
             ans.append("" if right is None else repr(right))
             cur = list(np.array(prev.get("range_x", profile.DEFAULTS["range_x"])) * 1e6)
@@ -457,6 +463,13 @@ def setup_oracle(ctx, n, tdir, model_lines, model_expect):
             r = rng.random()
             if r < 0.2:
                 ans += ["does_not_exist_ts", "zef18"]
+                exp["rating training set"] = "zef18"
+            elif r < 0.4 or i == 3:
+                # a folder that looks like a training set but lacks the feature files: not usable, asked again
+                inc = tdir / "incomplete_ts"
+                inc.mkdir(exist_ok=True)
+                (inc / "train_response.txt").write_text("1.0\n5.0\n9.0\n")
+                ans += [str(inc), "zef18"]
                 exp["rating training set"] = "zef18"
             else:
                 ans.append("")
@@ -494,7 +507,9 @@ def setup_oracle(ctx, n, tdir, model_lines, model_expect):
             if rt_answer is not None:
                 model_lines.append({"op": "range_type", "a": rt_answer})
                 model_expect.append(stored.get("range_type"))
-            model_lines.append({"op": "interval", "cur0": to_jv(float(cur[0])), "cur1": to_jv(float(cur[1])),
+            # (micrometres rounded to 1e-9 on both sides: the conversion m -> um -> m is not exact in binary64)
+            model_lines.append({"op": "interval", "cur0": to_jv(float(round(cur[0], 9))),
+                                "cur1": to_jv(float(round(cur[1], 9))),
                                 "left": None if left is None else to_jv(float(left)),
                                 "right": None if right is None else to_jv(float(right))})
             sx = list(np.array(stored["range_x"]) * 1e6)
